@@ -76,6 +76,18 @@ pub fn blocks(thorough: bool) -> Vec<Block> {
         b.push(Block::new(Universe::new("U_fold{s,U+017F,k,U+212A}", &["s", "\u{17f}", "k", "\u{212a}"], 3, 2, false), anch(&[I, I | R, I | X, I | R | X]), "{na,ne,na+ne} x {i, i+r, i+x, i+r+x}"));
         b.push(Block::new(u_kind_pairs(2, 2, false), anch(&[0]), "{na,ne,na+ne}"));
         b.push(Block::new(u_many(30), anch(&[0, R, X]), "{na,ne,na+ne} x {{}, r, x}"));
+        let class_pairs: Vec<u32> = {
+            let f = [D, ND, S, NS, W, NW];
+            let mut v = vec![];
+            for i in 0..6 {
+                for j in i + 1..6 {
+                    v.push(f[i] | f[j]);
+                }
+            }
+            v.extend([D | W | S, D | W | NS, ND | NW | S]);
+            v
+        };
+        b.push(Block::new(Universe::new("U_a1sp{a,1,space}", &["a", "1", " "], 2, 3, true), anch(&class_pairs), "{na,ne,na+ne} x all 15 pairs of class flags + 3 triples (overlapping classes: one test case's tokens also accept another's characters)"));
         b.push(Block::new(u_kind_triples(), anch(&[0]), "{na,ne,na+ne}"));
     } else {
         let b2: Vec<u32> = lattice_le(0, ALL_BITS & !(NA | NE | U | C), 2).iter().map(|c| c.bits).collect();
@@ -93,6 +105,7 @@ pub fn blocks(thorough: bool) -> Vec<Block> {
         b.push(Block::new(u_kind_pairs(2, 2, true), anch(&[R, I]), "{na,ne,na+ne} x {r, i}"));
         b.push(Block::new(u_runs(), anch(&bases7), "{na,ne,na+ne} x 7 bases"));
         b.push(Block::new(u_many(120), anch(&bases7), "{na,ne,na+ne} x 7 bases"));
+        b.push(Block::new(Universe::new("U_a1sp-{a,1,space,-}", &["a", "1", " ", "-"], 2, 3, true), anch(&lattice_all(0, CLASS_BITS).iter().map(|c| c.bits).collect::<Vec<u32>>()), "{na,ne,na+ne} x all 64 class subsets"));
         b.push(Block::new(u_kind_triples(), anch(&[0, X, R]), "{na,ne,na+ne} x {{}, x, r}"));
     }
     b
